@@ -187,19 +187,20 @@ Definition ex_space : space :=
      sp_legacy := false; sp_altair := 1; sp_points := [] |}.
 Definition ex_case : case :=
   {| c_space := ex_space;
-     c_portrayal := [(0, {| pd_size := Some 7; pd_color := Some 3; pd_marker := None; pd_zorder := Some 2 |});
+     c_portrayal := [(0, {| pd_size := Some 7; pd_color := Some 3; pd_marker := None; pd_zorder := Some 6 |});
                      (1, {| pd_size := None; pd_color := None; pd_marker := Some 1; pd_zorder := None |})];
      c_layer := Some [[1; 2]; [3; 4]; [5; 6]];
      c_ops := [Place 1 0 2 1; Place 2 1 2 1; Place 3 5 0 0; Move 1 1 0; SetKind 3 1; Remove 2; Place 9 0 7 7] |}.
 
 (* three agents, two in one cell, one moved, one removed, one rejected placement: two agents
-   remain, drawn in two scatter groups at hexagon centres (3,0) and (1,0) *)
+   remain, drawn in two scatter groups at hexagon centres (3,0) and (1,0); agent 1 has size 7/4 and
+   z-order 6/4 = 1.5 from its portrayal, agent 3 the default size 180^2/3^2 and z-order 1 *)
 Example C20_example_one_marker_each :
   let st := exec ex_space (c_portrayal ex_case) (init_state ex_case) (c_ops ex_case) in
   map a_id (st_agents st) = [1; 3] /\
   option_map (fun gs => map mark_row (drawn_marks gs))
              (draw_groups ex_space (c_portrayal ex_case) (st_agents st))
-  = Some [[3; 0; 7; 1; 3; 0; 2]; [1; 0; 3600; 1; 0; 1; 1]].
+  = Some [[3; 0; 7; 4; 3; 0; 6]; [1; 0; 3600; 1; 0; 1; 4]].
 Proof. vm_compute. split; reflexivity. Qed.
 
 Example C20_example_scatter_partition :
@@ -212,7 +213,7 @@ Example C20_example_altair :
   let st := exec ex_space (c_portrayal ex_case) (init_state ex_case) (c_ops ex_case) in
   (sp_altair ex_space = 1 /\ grid_family ex_space) /\
   option_map (map arow_row) (altair_data ex_space (c_portrayal ex_case) (st_agents st))
-  = Some [[0; 0; 0; 0; 0; 0; 1; 1; 0; 0]; [1; 0; 1; 7; 1; 3; 0; 0; 1; 2]].
+  = Some [[0; 0; 0; 0; 0; 0; 1; 1; 0; 0]; [1; 0; 1; 7; 1; 3; 0; 0; 1; 6]].
 Proof. split; [split; [reflexivity|right; reflexivity]|vm_compute; reflexivity]. Qed.
 
 Example C20_example_where_it_is :
@@ -260,10 +261,10 @@ Proof. vm_compute. split; reflexivity. Qed.
 Example C20_example_run_case :
   run_case {| c_space := ex_space; c_portrayal := c_portrayal ex_case; c_layer := None;
               c_ops := [Place 1 0 2 1; Place 2 1 2 1; DrawMpl; DrawAltair] |}
-  = [[0; 1; 2; 1; 7; 1; 3; 0; 2];
-     [0; 2; 2; 1; 7; 1; 3; 0; 2; 2; 1; 3600; 1; 0; 1; 1];
-     [0; 2; 4; 3; 7; 1; 3; 0; 2; 4; 3; 3600; 1; 0; 1; 1];
-     [0; 2; 2; 1; 0; 0; 0; 0; 1; 1; 0; 0; 2; 1; 1; 7; 1; 3; 0; 0; 1; 2]].
+  = [[0; 1; 2; 1; 7; 4; 3; 0; 6];
+     [0; 2; 2; 1; 7; 4; 3; 0; 6; 2; 1; 3600; 1; 0; 1; 4];
+     [0; 2; 4; 3; 7; 4; 3; 0; 6; 4; 3; 3600; 1; 0; 1; 4];
+     [0; 2; 2; 1; 0; 0; 0; 0; 1; 1; 0; 0; 2; 1; 1; 7; 1; 3; 0; 0; 1; 6]].
 Proof. vm_compute. reflexivity. Qed.
 
 Example C20_example_layer_write :
